@@ -22,6 +22,9 @@ MODEL = 'fifo'
 _OrigTPE = _S.ThreadPoolExecutor
 
 
+import excflavours
+
+
 class SrcError(Exception):
     pass
 
@@ -86,11 +89,15 @@ def gen_case(rng: random.Random, tier: str, bias: str = ''):
     ep = rng.choice([0.0, 0.0, 0.05, 0.2])     # timed waits (if the code has any) may expire at any moment
     ch = rng.choice([('random', ep), ('random', ep), ('sticky', 0.2, ep), ('sticky', 0.05, ep),
                      ('pct', 2, 300, ep), ('pct', 3, 300, ep)])
-    return dict(kind=kind, n=n, src=src, cap=cap, conc=conc, rexc=rexc, retx=rng.random() < 0.4,
+    case = dict(kind=kind, n=n, src=src, cap=cap, conc=conc, rexc=rexc, retx=rng.random() < 0.4,
                 none_at=(rng.randrange(n) if n and rng.random() < 0.25 else None),
                 pre=pre, pf=pf, re=re, rv=rv, again=again, stop_after=stop_after,
                 stop_mode=rng.choice(['close', 'close', 'del', 'throw']), dur=dur, chooser=list(ch),
                 seed=rng.randrange(1 << 30))
+    case['exc_flavour'] = excflavours.of_seed(case['seed'])
+    if case['seed'] % 13 == 0:
+        case['stop_after'] = 0       # the iterator is never advanced
+    return case
 
 
 def nontrivial(case, res):
@@ -154,6 +161,9 @@ def run_case(case):
     pf, re, dur = set(case['pf']), set(case['re']), case['dur']
     rv = set(case.get('rv', ()))
     none_at = case.get('none_at')
+    # the failure classes of this case (see excflavours: also derived from a class the plumbing catches for itself)
+    flav = case.get('exc_flavour') or 'plain'
+    SrcErr, WorkErr_, PreErr = (excflavours.flavoured(c, flav) for c in (SrcError, WorkError, PreError))
 
     class Src:
         def __init__(self):
@@ -162,7 +172,7 @@ def run_case(case):
         def __iter__(self):
             if case['src'] == 'iterexc':
                 log(('srcRaise',))
-                raise SrcError('src')
+                raise SrcErr('src')
             return self
 
         def __next__(self):
@@ -182,7 +192,7 @@ def run_case(case):
                 raise StopIteration
             log(('srcRaise',))
             if case['src'] == 'exc':
-                raise SrcError('src')
+                raise SrcErr('src')
             raise StopRequested()
 
     def work(x):
@@ -196,7 +206,7 @@ def run_case(case):
             for _ in range(dur[i]):
                 detsched.yield_here('work')
             if i in re:
-                raise WorkError(i)
+                raise WorkErr_(i)
             if i in rv:
                 return RetVal(i)
             return ('y', i)
@@ -219,7 +229,7 @@ def run_case(case):
         i = none_at if x is None else x - BASE
         if i in pf:
             log(('preFail', i))
-            raise PreError(i)
+            raise PreErr(i)
         return x
 
     class LoggingTPE(_OrigTPE):
@@ -264,6 +274,16 @@ def run_case(case):
     def consume(box, out):
         gen = box[0]
         first = True
+        if case['stop_after'] == 0:
+            # stop position 0: the iterator is obtained and given up without ever being advanced
+            if case['stop_mode'] in ('close', 'throw'):
+                gen.close()
+            box[0] = None
+            gen = None
+            gc.collect()
+            for _ in range(30):
+                detsched.yield_here('settle')
+            return ('closed',)
         try:
             while True:
                 if not first:
@@ -377,6 +397,8 @@ def run_case(case):
 def model_lines(cid, case, res):
     """Lines for `drv fifo`.  `stopreq` ends the source like an exception (the model has one
     failing-source ending; which exception class arrives is checked by the monitor)."""
+    if case.get('stop_after') == 0:
+        return []       # never advanced: nothing for the model to replay; the monitors (leak, hang) decide
     src = 'clean' if case['src'] == 'clean' else 'exc'
     cap = case['cap']
     pfl = ','.join(map(str, case['pf'])) if case['pre'] else ''
